@@ -8,7 +8,7 @@
 //   {"a":"Open","dom":"ok|wrong"}
 //   {"a":"Auth","ver":"sasl|sasl2","mech":"PLAIN|DIGEST-MD5|ANONYMOUS|X-UNKNOWN","cred":C,"b2":bool}
 //   {"a":"Response","ver":..,"cred":C}       C = malformed|empty (payload shapes) or who x secret:
-//        right|wrongPw|ownEmpty (own account) otherUser|victimEmpty (the victim) unknownPw|unknownEmpty
+//        right|wrongPw|ownEmpty (own account) otherUser|victimEmpty|victimOwnSecret (the victim) unknownPw|unknownEmpty
 //        (no such account) embedEmpty|embedBareEmpty|embedSlashEmpty (no such account, the name embeds
 //        the victim's address) embedKnown (an account of the attacker's named "victim@example.org/x")
 //   {"a":"Abort","ver":..}
@@ -337,6 +337,9 @@ struct Script {
             { "ownEmpty", { kAtt, QString() } },                 // own account, empty password
             { "otherUser", { kVic, kAttPw } },                   // the victim, the attacker's password
             { "victimEmpty", { kVic, QString() } },              // the victim, empty password
+            // the victim's NAME; a DIGEST-MD5 response is computed from the attacker's own secret hash
+            // MD5(attacker:realm:attacker-password) (see digestPayload); PLAIN: same payload as otherUser
+            { "victimOwnSecret", { kVic, kAttPw } },
             { "unknownPw", { kNobody, kAttPw } },                // no such account, some password
             { "unknownEmpty", { kNobody, QString() } },          // no such account, empty password
             // no such account; the name embeds the victim's address (the name becomes the localpart of d->jid)
@@ -383,7 +386,9 @@ struct Script {
         }
         const QByteArray cnonce = "c0ffee", nc = "00000001", uri = "xmpp/" + kDomain.toUtf8(), realm = kDomain.toUtf8();
         auto md5 = [](const QByteArray &d) { return QCryptographicHash::hash(d, QCryptographicHash::Md5); };
-        QByteArray a1 = md5(u.toUtf8() + ":" + realm + ":" + p.toUtf8()) + ":" + nonce + ":" + cnonce;
+        // whose name goes into the secret hash H(user:realm:password): normally the user named in the response
+        const QString hu = c == "victimOwnSecret" ? kAtt : u;
+        QByteArray a1 = md5(hu.toUtf8() + ":" + realm + ":" + p.toUtf8()) + ":" + nonce + ":" + cnonce;
         QByteArray a2 = "AUTHENTICATE:" + uri;
         QByteArray resp = md5(md5(a1).toHex() + ":" + nonce + ":" + nc + ":" + cnonce + ":auth:" + md5(a2).toHex()).toHex();
         QByteArray msg = "username=\"" + u.toUtf8() + "\",realm=\"" + realm + "\",nonce=\"" + nonce + "\",cnonce=\"" + cnonce +
